@@ -32,7 +32,7 @@ MCValsOne(t) == IF t = "A" THEN {1, 2} ELSE {1}
 Nodes_c09 == {<<la>>, <<ls>>, <<la, la>>}
 QNames_c09 == {<<>>, <<la>>, <<lc>>, <<la, la>>}
 TypesC09 == {"SOA", "A", "TXT"}
-QTypesC09 == {"A", "TXT", "ANY"}
+QTypesC09 == {"A", "TXT", "ANY", "SOA"}
 C09ValsOf(t) == IF t = "A" THEN {1, 2} ELSE {1}
 Nodes_q9 == {<<la>>, <<la, la>>}
 QNames_q9 == {<<la>>, <<la, la>>, <<lc>>}
